@@ -3,10 +3,17 @@
    are just numbers), every offset 0..|s|: some fuel suffices and every larger fuel gives an answer,
    which is a list of matches, ParseError or GrammarError; on closed grammars never GrammarError;
    a rule without definition gives GrammarError.
-   NOT proved here (stated in DESIGN.md as the gap): a polynomial work bound, interpreter stack depth;
-   the loader-atomicity clause is checked by the correspondence harness (registry snapshots). *)
+   Loader clause (RejectInvalid.v): for every registry that still holds the boot rules and EVERY text, for all sufficiently
+   large fuel the library route (engine on the translated meta-grammar + visitor) answers exactly one of: the new registry
+   (iff the text is a valid rulelist / rule whose definitions succeed), ParseError (iff the spec reader rejects the text;
+   for create also when only a proper prefix is a rule), or the "other exception" outcome (iff the text IS valid but a
+   definition fails: "=/" on an undefined rule) — never out-of-fuel, never GrammarError; a failing call returns no
+   registry (the whole text is parsed before any rule is created).
+   NOT proved (the gap, and false of the library: two known findings): a polynomial work bound, interpreter stack depth.
+   Partial effects of the "other exception" outcome on the real registry are checked by the correspondence harness. *)
 From Coq Require Import List NArith.
-From ABNF Require Import Base Engine Spec Wf EngineTerm L_C12.
+Import ListNotations.
+From ABNF Require Import Base Engine Spec Wf EngineTerm L_C12 AbnfRead Registry Compile ReaderDerivE2E RejectInvalid.
 
 Theorem C12_terminates : forall sh nul rank G, perm_oracle sh -> wf nul rank G ->
   forall e s i, WB e -> i <= length s ->
@@ -30,3 +37,33 @@ Theorem C12_undefined_grammar_error : forall sh G f r s i,
   (G r = None \/ exists ru, G r = Some ru /\ rdef ru = None) -> lparse sh G (S f) (ERef r) s i = GErr.
 Proof. exact undefined_gerr. Qed.
 Print Assumptions C12_undefined_grammar_error.
+
+(* ---- the loader clause --------------------------------------------------------------------------------------------- *)
+Theorem C12_invalid_rulelist_rejected_with_ParseError : forall c text (strict : bool) R, boot_ok R ->
+  read_rulelist (if strict then normalise text else text) = None ->
+  exists fuel, forall f, fuel <= f -> lib_load_grammar f c text strict R = LParseError.
+Proof. exact invalid_rulelist_rejected. Qed.
+Print Assumptions C12_invalid_rulelist_rejected_with_ParseError.
+
+Theorem C12_invalid_rule_rejected_with_ParseError : forall c text R, boot_ok R ->
+  (forall a, read_rule (ensure_crlf text) <> Some (a, [])) ->
+  exists fuel, forall f, fuel <= f -> lib_create f c text R = LParseError.
+Proof. exact invalid_rule_rejected. Qed.
+Print Assumptions C12_invalid_rule_rejected_with_ParseError.
+
+Theorem C12_load_outcomes : forall c text strict R, boot_ok R ->
+  exists fuel, forall f, fuel <= f ->
+    (exists R', lib_load_grammar f c text strict R = LOk R' /\ load_grammar c text strict R = Some R') \/
+    (lib_load_grammar f c text strict R = LParseError /\ read_rulelist (if strict then normalise text else text) = None) \/
+    (lib_load_grammar f c text strict R = LOther /\
+     exists rs, read_rulelist (if strict then normalise text else text) = Some rs /\ define_rules c rs R = None).
+Proof. exact load_trichotomy. Qed.
+Print Assumptions C12_load_outcomes.
+
+Theorem C12_create_outcomes : forall c text R, boot_ok R ->
+  exists fuel, forall f, fuel <= f ->
+    (exists R', lib_create f c text R = LOk R' /\ create c text R = Some R') \/
+    (lib_create f c text R = LParseError /\ forall a, read_rule (ensure_crlf text) <> Some (a, [])) \/
+    (lib_create f c text R = LOther /\ exists a, read_rule (ensure_crlf text) = Some (a, []) /\ define_rule c a R = None).
+Proof. exact create_trichotomy. Qed.
+Print Assumptions C12_create_outcomes.
